@@ -214,11 +214,13 @@ def cread(r):
     return copt(None if r is None else '(%s, %s)' % (centries(r[0]), ctable(r[1])))
 
 
-def explore(ctx, n_tables, n_texts):
+def explore(ctx, n_tables, n_texts, only_table=None, only_text=None):
     rng = ctx.rng
     tmp = tempfile.mkdtemp(prefix='verif_c19t_')
     try:
-        tables = [(nm, t) for nm, t in WITNESSES]
+        tables = [(nm, t) for nm, t in WITNESSES] if only_table is None and only_text is None else []
+        if only_table is not None:
+            tables.append(('replay', [(n, [tuple(e) for e in es]) for n, es in only_table]))
         for i in range(n_tables):
             tables.append(('gen', gen_table(rng, hostile=(i % 2 == 1))))
         t_case, t_guard, keep = [], [], []
@@ -249,7 +251,7 @@ def explore(ctx, n_tables, n_texts):
                 desc, text, back = keep[i]
                 ctx.disagree(desc, {'text': text, 'read': repr(back)},
                              ctx.model_eval(HEADER, '(write_table %s, table_ok %s)' % (ctable(tables[i][1]), ctable(tables[i][1])))[:600] if k < 2 else '', name)
-        texts = [gen_text(rng) for _ in range(n_texts)]
+        texts = [gen_text(rng) for _ in range(n_texts)] + ([only_text] if only_text is not None else [])
         t_read, keep = [], []
         for x in texts:
             r = real_read(x, tmp)
